@@ -6,6 +6,10 @@
 #include "../model/model.hpp"
 #include "randomx.h"
 #include "blake2/blake2.h"
+#include "../seams/seams.hpp"
+#ifdef RXSIM_TSAN
+#include "../seams/tsan_glue.hpp"
+#endif
 #include <stdio.h>
 #include <string.h>
 #include <time.h>
@@ -22,7 +26,13 @@ struct Stream { uint32_t outlen = 32, keylen = 0; uint64_t keyseed = 0, msglen =
 enum StepKind { S_UPDATE, S_FINAL, S_FINAL_SHORT, S_ONESHOT, S_BAD_ONESHOT, S_BAD_INIT, S_BAD_INIT_KEY, S_COMMIT, S_KINDS };
 static const char *SNAMES[S_KINDS] = {"update", "final", "final_short", "oneshot", "bad_oneshot", "bad_init", "bad_init_key", "commit"};
 struct Step { int kind = 0; int s = 0; uint64_t n = 0; uint32_t a = 0, b = 0; };
-struct Plan11 { uint64_t seed = 0; std::vector<Stream> streams; std::vector<Step> steps; };
+struct Plan11 {
+	uint64_t seed = 0; std::vector<Stream> streams; std::vector<Step> steps;
+	// threads > 0: the streams are owned by that many simulated caller threads (stream s belongs to task 1 + s % threads,
+	// a step without a stream to task 1 + index % threads); each task performs its steps in plan order, the seeded
+	// scheduler switches between tasks at step boundaries
+	int threads = 0; uint32_t p_num = 1, p_den = 2; bool replay = false; std::vector<rt::Switch> sched;
+};
 
 // message byte generator: byte i of stream = f(seed, i)
 inline void msg_bytes(uint64_t seed, uint64_t off, uint8_t *out, size_t n) {
@@ -48,7 +58,13 @@ std::string to_json(const Plan11 &p) {
 		snprintf(b, sizeof b, "%s{\"k\":\"%s\",\"s\":%d,\"n\":%llu,\"a\":%u,\"b\":%u}", i ? "," : "", SNAMES[t.kind], t.s, (unsigned long long)t.n, t.a, t.b);
 		s += b;
 	}
-	s += "]}";
+	s += "]";
+	if (p.threads) {
+		s += ",\"threads\":" + std::to_string(p.threads) + ",\"p_num\":" + std::to_string(p.p_num) + ",\"p_den\":" + std::to_string(p.p_den) + ",\"replay\":" + (p.replay ? "true" : "false") + ",\"sched\":[";
+		for (size_t i = 0; i < p.sched.size(); ++i) { snprintf(b, sizeof b, "%s[%llu,%d]", i ? "," : "", (unsigned long long)p.sched[i].step, p.sched[i].task); s += b; }
+		s += "]";
+	}
+	s += "}";
 	return s;
 }
 bool from_json(const rt::JVal &j, Plan11 &p) {
@@ -61,11 +77,17 @@ bool from_json(const rt::JVal &j, Plan11 &p) {
 		t.s = (int)e.num("s"); t.n = e.u64("n"); t.a = (uint32_t)e.num("a"); t.b = (uint32_t)e.num("b");
 		p.steps.push_back(t);
 	}
+	p.threads = (int)j.num("threads"); p.p_num = (uint32_t)j.num("p_num", 1); p.p_den = (uint32_t)j.num("p_den", 2);
+	if (auto r = j.get("replay")) p.replay = r->t == rt::JVal::BOOL && r->b;
+	if (auto a = j.get("sched")) for (auto &e : a->a) if (e.a.size() == 2) p.sched.push_back(rt::Switch{(uint64_t)e.a[0].i, (int)e.a[1].i});
 	return true;
 }
 
 struct Viol { std::string cls, sig, detail; int step; };
-struct Result { std::vector<Viol> v; uint64_t fp = 0x11; uint64_t bytes = 0; uint64_t updates = 0, finals = 0, misuse = 0, early_finals = 0, zero_chunks = 0, interleaved = 0; bool invalid = false; };
+static __thread seam::OpCtx *g_ctx = nullptr;
+#define LIB(call) ([&]() { seam::lib_enter(g_ctx); auto lib_r_ = (call); seam::lib_exit(); return lib_r_; }())
+#define LIBV(call) do { seam::lib_enter(g_ctx); call; seam::lib_exit(); } while (0)
+struct Result { std::vector<Viol> v; uint64_t fp = 0x11; uint64_t bytes = 0; uint64_t updates = 0, finals = 0, misuse = 0, early_finals = 0, zero_chunks = 0, interleaved = 0; bool invalid = false; std::vector<rt::Switch> recorded; uint64_t switches = 0, ilv = 0; };
 
 // an invalid output length: just above the limit, and values whose low 8 / 16 / 32 bits look valid
 size_t bad_outlen(uint32_t r) {
@@ -97,15 +119,18 @@ Result run(const Plan11 &p) {
 		l.inited = true;
 		l.key.resize(t.keylen); if (t.keylen) msg_bytes(t.keyseed, 0, l.key.data(), t.keylen);
 		memset(&l.st, 0x5A, sizeof l.st);
-		int rc = t.keylen ? blake2b_init_key(&l.st, t.outlen, l.key.data(), t.keylen) : blake2b_init(&l.st, t.outlen);
+		int rc = LIB(t.keylen ? blake2b_init_key(&l.st, t.outlen, l.key.data(), t.keylen) : blake2b_init(&l.st, t.outlen));
 		bool ok = l.ref.init(t.outlen, t.keylen ? l.key.data() : nullptr, t.keylen);
 		l.valid = ok;
 		if ((rc == 0) != ok) fail("B2_INIT_STATUS", std::string("init returned ") + (rc == 0 ? "0" : "-1") + " for " + (ok ? "valid" : "invalid") + " parameters", "outlen=" + std::to_string(t.outlen) + " keylen=" + std::to_string(t.keylen), step);
 		R.fp = rt::mix64(R.fp, (uint64_t)rc + 7);
 	};
-	for (size_t si = 0; si < p.steps.size(); ++si) {
+	for (auto &st : p.steps) if ((st.kind == S_UPDATE || st.kind == S_FINAL || st.kind == S_FINAL_SHORT || st.kind == S_ONESHOT) && (st.s < 0 || st.s >= (int)ns)) { R.invalid = true; return R; }
+	auto do_step = [&](size_t si) {
 		const Step &st = p.steps[si];
-		if ((st.kind == S_UPDATE || st.kind == S_FINAL || st.kind == S_FINAL_SHORT || st.kind == S_ONESHOT) && (st.s < 0 || st.s >= (int)ns)) { R.invalid = true; return R; }
+		seam::OpCtx ctx; ctx.task = rt::sched_current_task(); ctx.op_index = (int)si; ctx.op_name = SNAMES[st.kind];
+		rt::sched_yield_point(rt::SITE_OP_BEGIN);
+		g_ctx = &ctx; // LIB(call): library scope (and, in the tsan variant, visibility to TSan) only around the library call itself
 		switch (st.kind) {
 		case S_UPDATE: {
 			ensure_init(st.s, (int)si);
@@ -114,7 +139,7 @@ Result run(const Plan11 &p) {
 			const uint8_t *data;
 			if (t.zero) { // all-zero message served from one untouched anonymous mapping (the kernel's zero page)
 				static uint8_t *zeros = nullptr; static const uint64_t ZLEN = ((uint64_t)5 << 30);
-				if (!zeros) { void *m = mmap(nullptr, ZLEN, PROT_READ, MAP_PRIVATE | MAP_ANONYMOUS | MAP_NORESERVE, -1, 0); if (m == MAP_FAILED) { R.invalid = true; return R; } zeros = (uint8_t *)m; }
+				if (!zeros) { void *m = mmap(nullptr, ZLEN, PROT_READ, MAP_PRIVATE | MAP_ANONYMOUS | MAP_NORESERVE, -1, 0); if (m == MAP_FAILED) { R.invalid = true; return; } zeros = (uint8_t *)m; }
 				if (n > ZLEN) n = ZLEN;
 				data = zeros;
 			} else {
@@ -123,12 +148,13 @@ Result run(const Plan11 &p) {
 				msg_bytes(t.msgseed, l.fed, chunk.data(), (size_t)n);
 				data = chunk.data();
 			}
-			int rc = blake2b_update(&l.st, data, (size_t)n);
+			if (n == 0 && (st.a & 1)) data = nullptr; // an empty chunk may be passed as (NULL, 0)
+			int rc = LIB(blake2b_update(&l.st, data, (size_t)n));
 			int want = (!l.valid || l.finalized) && n > 0 ? -1 : 0;
 			// a zero-length update on a finished or rejected state: the property does not say; accept 0 and -1
 			if (n == 0 && (!l.valid || l.finalized) && (rc == 0 || rc == -1)) want = rc;
 			if (rc != want) fail("B2_UPDATE_STATUS", std::string("update returned ") + std::to_string(rc) + (l.finalized ? " after final" : !l.valid ? " on invalid state" : ""), "n=" + std::to_string(n), (int)si);
-			if (l.valid && !l.finalized) { l.ref.update(data, (size_t)n); l.fed += n; }
+			if (l.valid && !l.finalized && n) { l.ref.update(data, (size_t)n); l.fed += n; }
 			if (l.finalized || !l.valid) ++R.misuse;
 			++R.updates; R.bytes += n; if (n == 0) ++R.zero_chunks;
 			if (last_stream >= 0 && last_stream != st.s) ++R.interleaved;
@@ -144,7 +170,7 @@ Result run(const Plan11 &p) {
 			bool shortbuf = st.kind == S_FINAL_SHORT && t.outlen > 1;
 			if (shortbuf) olen = t.outlen - 1 - (st.a % t.outlen) % (t.outlen - 1);
 			if (olen == 0) olen = 1, shortbuf = t.outlen > 1;
-			int rc = blake2b_final(&l.st, out + 16, olen);
+			int rc = LIB(blake2b_final(&l.st, out + 16, olen));
 			bool expect_ok = l.valid && !l.finalized && !shortbuf;
 			if ((rc == 0) != expect_ok) fail("B2_FINAL_STATUS", std::string("final returned ") + std::to_string(rc) + (l.finalized ? " after final" : shortbuf ? " with short buffer" : !l.valid ? " on invalid state" : ""), "", (int)si);
 			if (expect_ok) {
@@ -166,11 +192,12 @@ Result run(const Plan11 &p) {
 		case S_ONESHOT: {
 			const Stream &t = p.streams[st.s];
 			if (t.msglen > ((uint64_t)4 << 20)) break;
+			const bool null_msg = t.msglen == 0 && (st.a & 1); // the empty message as (NULL, 0)
 			std::vector<uint8_t> msg((size_t)t.msglen + 1), key(t.keylen + 1);
 			msg_bytes(t.msgseed, 0, msg.data(), (size_t)t.msglen);
 			if (t.keylen) msg_bytes(t.keyseed, 0, key.data(), t.keylen);
 			uint8_t out[96]; memset(out, CANARY, sizeof out);
-			int rc = blake2b(out + 16, t.outlen, msg.data(), (size_t)t.msglen, t.keylen ? key.data() : nullptr, t.keylen);
+			int rc = LIB(blake2b(out + 16, t.outlen, null_msg ? nullptr : msg.data(), (size_t)t.msglen, t.keylen ? key.data() : nullptr, t.keylen));
 			uint8_t want[64];
 			bool ok = model::blake2b_ref(want, t.outlen, msg.data(), (size_t)t.msglen, t.keylen ? key.data() : nullptr, t.keylen);
 			if ((rc == 0) != ok) fail("B2_ONESHOT_STATUS", "blake2b() status differs from model", "", (int)si);
@@ -186,12 +213,12 @@ Result run(const Plan11 &p) {
 			uint8_t msg[16] = {1, 2, 3}, key[80] = {9};
 			int rc = 0;
 			switch (st.a % 6) {
-			case 0: rc = blake2b(out + 16, 0, msg, 3, nullptr, 0); break;
-			case 1: rc = blake2b(out + 16, bad_outlen(st.b), msg, 3, nullptr, 0); break;
-			case 2: rc = blake2b(out + 16, 1 + st.b % 64, msg, 3, key, 65 + (st.b % 8)); break;
-			case 3: rc = blake2b(out + 16, 1 + st.b % 64, msg, 3, nullptr, 1 + st.b % 64); break;
-			case 4: rc = blake2b(out + 16, 1 + st.b % 64, nullptr, 1 + st.b % 100, nullptr, 0); break;
-			case 5: rc = blake2b(nullptr, 1 + st.b % 64, msg, 3, nullptr, 0); break;
+			case 0: rc = LIB(blake2b(out + 16, 0, msg, 3, nullptr, 0)); break;
+			case 1: rc = LIB(blake2b(out + 16, bad_outlen(st.b), msg, 3, nullptr, 0)); break;
+			case 2: rc = LIB(blake2b(out + 16, 1 + st.b % 64, msg, 3, key, 65 + (st.b % 8))); break;
+			case 3: rc = LIB(blake2b(out + 16, 1 + st.b % 64, msg, 3, nullptr, 1 + st.b % 64)); break;
+			case 4: rc = LIB(blake2b(out + 16, 1 + st.b % 64, nullptr, 1 + st.b % 100, nullptr, 0)); break;
+			case 5: rc = LIB(blake2b(nullptr, 1 + st.b % 64, msg, 3, nullptr, 0)); break;
 			}
 			if (rc == 0) fail("B2_ACCEPTED_INVALID", "blake2b() accepted invalid parameters case=" + std::to_string(st.a % 6), "", (int)si);
 			if (!canary_ok(out, sizeof out)) fail("B2_WRITE_ON_REJECT", "blake2b() wrote output although parameters are invalid case=" + std::to_string(st.a % 6), "", (int)si);
@@ -203,13 +230,13 @@ Result run(const Plan11 &p) {
 			blake2b_state S; memset(&S, 0x5A, sizeof S);
 			uint8_t key[80] = {7};
 			int rc;
-			if (st.kind == S_BAD_INIT) rc = blake2b_init(&S, (st.a & 7) == 0 ? 0 : bad_outlen(st.b));
+			if (st.kind == S_BAD_INIT) rc = LIB(blake2b_init(&S, (st.a & 7) == 0 ? 0 : bad_outlen(st.b)));
 			else {
 				switch (st.a % 4) {
-				case 0: rc = blake2b_init_key(&S, (st.b & 1) ? 0 : bad_outlen(st.b >> 1), key, 16); break;
-				case 1: rc = blake2b_init_key(&S, 32, key, 0); break;
-				case 2: rc = blake2b_init_key(&S, 32, key, 65 + st.b % 8); break;
-				default: rc = blake2b_init_key(&S, 32, nullptr, 16); break;
+				case 0: rc = LIB(blake2b_init_key(&S, (st.b & 1) ? 0 : bad_outlen(st.b >> 1), key, 16)); break;
+				case 1: rc = LIB(blake2b_init_key(&S, 32, key, 0)); break;
+				case 2: rc = LIB(blake2b_init_key(&S, 32, key, 65 + st.b % 8)); break;
+				default: rc = LIB(blake2b_init_key(&S, 32, nullptr, 16)); break;
 				}
 			}
 			if (rc == 0) fail("B2_ACCEPTED_INVALID", std::string(st.kind == S_BAD_INIT ? "blake2b_init" : "blake2b_init_key") + " accepted invalid parameters", "", (int)si);
@@ -224,7 +251,7 @@ Result run(const Plan11 &p) {
 			msg_bytes(st.a + 77, 0, in.data(), n);
 			uint8_t h[32]; msg_bytes(st.b + 99, 0, h, 32);
 			uint8_t out[64]; memset(out, CANARY, sizeof out);
-			randomx_calculate_commitment(in.data(), n, h, out + 16);
+			LIBV(randomx_calculate_commitment(in.data(), n, h, out + 16));
 			cat.assign(in.begin(), in.begin() + n); cat.insert(cat.end(), h, h + 32);
 			uint8_t want[32]; model::blake2b_ref(want, 32, cat.data(), cat.size(), nullptr, 0);
 			if (memcmp(out + 16, want, 32) != 0) fail("COMMITMENT_MISMATCH", "commitment != blake2b-256(input||hash)", "len=" + std::to_string(n), (int)si);
@@ -233,7 +260,28 @@ Result run(const Plan11 &p) {
 			break;
 		}
 		}
+	};
+	if (p.threads <= 0) { for (size_t si = 0; si < p.steps.size() && !R.invalid; ++si) do_step(si); }
+	else {
+		int nt = std::min(p.threads, 8);
+		struct Ctl { std::vector<std::vector<size_t>> per; decltype(do_step) *fn; } ctl;
+		ctl.per.assign((size_t)nt + 1, std::vector<size_t>()); ctl.fn = &do_step;
+		for (size_t si = 0; si < p.steps.size(); ++si) {
+			const Step &st = p.steps[si];
+			bool has_stream = st.kind == S_UPDATE || st.kind == S_FINAL || st.kind == S_FINAL_SHORT || st.kind == S_ONESHOT;
+			ctl.per[1 + (has_stream ? (size_t)st.s : si) % (size_t)nt].push_back(si);
+		}
+		rt::SchedConfig sc; sc.replay = p.replay; sc.script = p.sched; sc.seed = rt::mix64(p.seed, 0x5c4ed); sc.p_num = p.p_num; sc.p_den = p.p_den;
+		rt::sched_configure(sc); rt::sched_reset_stats();
+		std::vector<int> ids; for (int t = 1; t <= nt; ++t) ids.push_back(t);
+		R.recorded.clear();
+		rt::sched_run_phase(nt, ids.data(), [](int task, void *arg) { Ctl *c = (Ctl *)arg; for (size_t si : c->per[(size_t)task]) (*c->fn)(si); }, &ctl, R.recorded);
+		R.switches = rt::sched_stats().switches; R.ilv = rt::sched_stats().interleave_hash;
 	}
+#ifdef RXSIM_TSAN
+	for (int i = 0; i < tsanglue::count(); ++i) fail("TSAN_RACE", tsanglue::get(i).sig, "", -1);
+	tsanglue::clear();
+#endif
 	return R;
 }
 
@@ -253,7 +301,7 @@ uint64_t pick_len(rt::Rng &r, bool thorough) {
 	}
 }
 
-Plan11 generate(uint64_t run_seed, bool thorough, bool huge) {
+Plan11 generate(uint64_t run_seed, bool thorough, bool huge, bool threaded) {
 	Plan11 p; p.seed = run_seed;
 	rt::Rng r = rt::substream(run_seed, "c11");
 	if (huge) { // streams longer than 4 GiB: 32-bit truncation of a length or of the byte counter, counter carry
@@ -271,12 +319,18 @@ Plan11 generate(uint64_t run_seed, bool thorough, bool huge) {
 		return p;
 	}
 	int ns = (int)r.range(1, 4);
+	if (threaded) { // streams owned by 2-4 simulated caller threads (run under the race detector): shorter messages, more states
+		ns = (int)r.range(2, 6); p.threads = (int)r.range(2, 4);
+		static const uint32_t dens[] = {1, 2, 4, 8};
+		p.p_num = 1; p.p_den = dens[r.below(4)];
+	}
 	for (int i = 0; i < ns; ++i) {
 		Stream t;
 		t.outlen = r.chance(1, 3) ? (r.chance(1, 2) ? 32 : 64) : (uint32_t)r.range(1, 64);
 		t.keylen = r.chance(1, 3) ? (uint32_t)r.range(1, 64) : 0;
 		t.keyseed = r.next(); t.msgseed = r.next();
 		t.msglen = pick_len(r, thorough);
+		if (threaded && t.msglen > 4096) t.msglen = 128 * (1 + t.msglen % 24) + t.msglen % 3 - 1;
 		p.streams.push_back(t);
 	}
 	std::vector<uint64_t> left(ns); std::vector<int> mode(ns); std::vector<bool> done(ns, false);
@@ -295,7 +349,7 @@ Plan11 generate(uint64_t run_seed, bool thorough, bool huge) {
 			p.steps.push_back(Step{S_FINAL, s, 0, 0, 0});
 			if (r.chance(1, 4)) p.steps.push_back(Step{S_UPDATE, s, 1 + r.below(200), 0, 0}); // update after final
 			if (r.chance(1, 4)) p.steps.push_back(Step{S_FINAL, s, 0, 0, 0});                   // final after final
-			if (r.chance(1, 3)) p.steps.push_back(Step{S_ONESHOT, s, 0, 0, 0});
+			if (r.chance(1, 3)) p.steps.push_back(Step{S_ONESHOT, s, 0, (uint32_t)r.below(2), 0});
 			done[s] = true; --open;
 			continue;
 		}
@@ -310,7 +364,7 @@ Plan11 generate(uint64_t run_seed, bool thorough, bool huge) {
 		}
 		if (mode[s] == 0 && left[s] > 600) mode[s] = 5;       // do not dribble forever
 		if (n > left[s]) n = left[s];
-		p.steps.push_back(Step{S_UPDATE, s, n, 0, 0});
+		p.steps.push_back(Step{S_UPDATE, s, n, n == 0 ? (uint32_t)r.below(2) : 0u, 0});
 		left[s] -= n;
 	}
 	for (int s = 0; s < ns; ++s) if (!done[s]) p.steps.push_back(Step{S_FINAL, s, 0, 0, 0});
@@ -321,8 +375,8 @@ void print_result(uint64_t idx, const Plan11 &p, const Result &R, bool with_plan
 	std::string s = "{\"type\":\"run\",\"run\":" + std::to_string(idx) + ",\"seed\":" + std::to_string(p.seed);
 	char b[300];
 	snprintf(b, sizeof b, ",\"fp\":\"%016llx\",\"events\":%zu,\"ops\":%zu,\"nops\":%zu,\"tasks\":%zu,\"invalid\":%s,\"steps\":%zu,\"switches\":%llu,\"yields\":0,\"ilv\":\"%016llx\",\"shape\":\"%016llx\"",
-	         (unsigned long long)R.fp, p.steps.size(), p.steps.size(), p.steps.size(), p.streams.size(), R.invalid ? "true" : "false", p.steps.size(), (unsigned long long)R.interleaved,
-	         (unsigned long long)R.interleaved, (unsigned long long)rt::fnv64(p.streams.data(), 0) ^ (unsigned long long)p.steps.size() * 1315423911ULL ^ (unsigned long long)p.streams.size());
+	         (unsigned long long)R.fp, p.steps.size(), p.steps.size(), p.steps.size(), p.streams.size(), R.invalid ? "true" : "false", p.steps.size(), (unsigned long long)(p.threads ? R.switches : R.interleaved),
+	         (unsigned long long)(p.threads ? R.ilv : R.interleaved), (unsigned long long)rt::fnv64(p.streams.data(), 0) ^ (unsigned long long)p.steps.size() * 1315423911ULL ^ (unsigned long long)p.streams.size());
 	s += b;
 	snprintf(b, sizeof b, ",\"req\":[0,0,0,0],\"fired\":[0,0,0,0],\"probes\":{\"bytes\":%llu,\"updates\":%llu,\"finals\":%llu,\"misuse_calls\":%llu,\"early_finals\":%llu,\"zero_length_chunks\":%llu,\"interleaved_switches\":%llu}",
 	         (unsigned long long)R.bytes, (unsigned long long)R.updates, (unsigned long long)R.finals, (unsigned long long)R.misuse, (unsigned long long)R.early_finals, (unsigned long long)R.zero_chunks, (unsigned long long)R.interleaved);
@@ -330,7 +384,7 @@ void print_result(uint64_t idx, const Plan11 &p, const Result &R, bool with_plan
 	s += ",\"violations\":[";
 	for (size_t i = 0; i < R.v.size(); ++i) s += std::string(i ? "," : "") + "{\"cls\":\"" + R.v[i].cls + "\",\"sig\":\"" + rt::json_escape(R.v[i].sig) + "\",\"detail\":\"" + rt::json_escape(R.v[i].detail) + "\",\"op\":" + std::to_string(R.v[i].step) + ",\"opkind\":\"step\"}";
 	s += "]";
-	if (with_plan) s += ",\"plan\":" + to_json(p);
+	if (with_plan) { Plan11 q = p; if (q.threads) { q.sched = R.recorded; q.replay = true; } s += ",\"plan\":" + to_json(q); }
 	s += "}";
 	printf("%s\n", s.c_str());
 	fflush(stdout);
@@ -338,15 +392,16 @@ void print_result(uint64_t idx, const Plan11 &p, const Result &R, bool with_plan
 
 } // namespace
 
-int c11_worker(uint64_t seed, uint64_t from, uint64_t to, uint64_t step, double budget_s, uint64_t samples, const std::string &tier) {
+int c11_worker(uint64_t seed, uint64_t from, uint64_t to, uint64_t step, double budget_s, uint64_t samples, const std::string &tier, const std::string &mode) {
+	const bool threaded = mode == "threads";
 	double t0 = now_s();
 	uint64_t done = 0;
 	bool thorough = tier == "thorough";
 	for (uint64_t idx = from; idx < to; idx += step) {
 		if (budget_s > 0 && done > 0 && now_s() - t0 > budget_s) break;
 		uint64_t run_seed = rt::mix64(rt::mix_str(seed, "C11"), idx);
-		bool huge = idx == 0; // one >4 GiB plan per check run (about 25 s on one worker)
-		Plan11 p = generate(run_seed, thorough, huge);
+		bool huge = idx == 0 && !threaded; // one >4 GiB plan per check run (about 25 s on one worker)
+		Plan11 p = generate(run_seed, thorough, huge, threaded);
 		Result R = run(p);
 		print_result(idx, p, R, !R.v.empty() || done < samples);
 		++done;
